@@ -94,6 +94,12 @@ def run_shape(tdir, work, inv, k, rep=0):
         ref = open(rb, "rb").read() if os.path.exists(rb) else None
     if inv.get("via") == "fileread" and inv["xv"] > 0:
         open(os.path.join(d, "simin1"), "wb").write(bytes((65 + i) % 250 for i in range(inv["xv"])))
+    if inv["pre"] == "nodir":
+        target = "no/such/dir/out.bin"
+    elif inv["pre"] == "devfull":
+        target = "/dev/full"
+    elif inv["pre"] == "isdir":
+        os.makedirs(os.path.join(d, "adir")); target = "adir"
     if inv["pre"] == "present" and target:
         open(os.path.join(d, target), "wb").write(b"PRE-EXISTING SENTINEL\n")
     fifo = None
